@@ -614,6 +614,58 @@ func (g *genState) genCase(id string) {
 			g.nextSnap++
 			g.emit("q fresh %s init", k[0])
 		}
+		if r.Chance(g.weight(4, "C01 C02 C11", 4)) {
+			// a key that is a prefix of two others (plus a sibling, so that its node is not the root); a snapshot; then ONE
+			// transaction deletes a longer key and then the prefix key itself (the node it sits on was cloned by the
+			// first delete and is merged with its last child by the second), committed or aborted; the snapshot and
+			// the committed state are then asked for the remaining longer key by point lookup
+			tb := r.Intn(2)
+			a := hx.Pick(r, idAlphabet)
+			var rest []byte
+			for _, c := range idAlphabet {
+				if c != a {
+					rest = append(rest, c)
+				}
+			}
+			x, y, sib := rest[0], rest[1], rest[2]
+			if r.Chance(50) {
+				x, y = y, x
+			}
+			ids := [][]byte{{a}, {a, x}, {a, y}, {sib}}
+			g.emit("begin %d", tb)
+			g.locked = map[int]bool{tb: true}
+			g.sh.begin(g.locked)
+			for _, id := range ids {
+				o := &Obj{ID: id, Val: 1 + r.Intn(9), U: [][]byte{}, N: [][]byte{}, LU: []LKey{}, LN: []LKey{}}
+				g.emit("insert %d %s", tb, g.objArgs(o))
+				g.sh.modify(tb, "insert", 0, o, true)
+			}
+			g.emit("commit %d", g.nextSnap)
+			g.sh.commit()
+			g.snaps = append(g.snaps, g.nextSnap)
+			keep := g.nextSnap
+			g.nextSnap++
+			g.emit("begin %d", tb)
+			g.sh.begin(g.locked)
+			g.emit("delete %d %s", tb, hx.Hex(ids[1]))
+			g.sh.delete(tb, false, 0, ids[1], true)
+			g.emit("delete %d %s", tb, hx.Hex(ids[0]))
+			g.sh.delete(tb, false, 0, ids[0], true)
+			g.emit("q txn %d get id %s", tb, hx.Hex(ids[2]))
+			if r.Chance(60) {
+				g.emit("commit %d", g.nextSnap)
+				g.sh.commit()
+				g.snaps = append(g.snaps, g.nextSnap)
+				g.nextSnap++
+			} else {
+				g.emit("abort")
+				g.sh.abort()
+			}
+			g.emit("q s%d %d get id %s", keep, tb, hx.Hex(ids[2]))
+			g.emit("q s%d %d prefix id %s", keep, tb, hx.Hex(ids[2]))
+			g.emit("q fresh %d get id %s", tb, hx.Hex(ids[2]))
+			g.emit("q fresh %d all", tb)
+		}
 		if r.Chance(g.weight(4, "C07 C08", 4)) {
 			// an iterator is created in a write transaction, advanced with that transaction (it observes the
 			// committed objects), and only then does the transaction delete one of them: the deletion is made
